@@ -416,6 +416,26 @@ func runPristine(d *xh.Decoder, block []byte) (out []emitted, err error) {
 	return out, d.Close()
 }
 
+// leadingSizeUpdates counts the dynamic table size updates (001xxxxx) a block starts with.
+func leadingSizeUpdates(b []byte) int {
+	n := 0
+	for len(b) > 0 && b[0]&0xe0 == 0x20 {
+		n++
+		first := b[0] & 0x1f
+		b = b[1:]
+		if first == 0x1f {
+			for len(b) > 0 {
+				c := b[0]
+				b = b[1:]
+				if c&0x80 == 0 {
+					break
+				}
+			}
+		}
+	}
+	return n
+}
+
 func execDec(s DecScript) (v *vstat.Violation, classes []string) {
 	defer func() {
 		if r := recover(); r != nil {
@@ -438,7 +458,7 @@ func execDec(s DecScript) (v *vstat.Violation, classes []string) {
 		if (werr == nil) != (ferr == nil) || fmt.Sprint(w) != fmt.Sprint(f) {
 			return vstat.Violf("decode|fragmentation-changes-result", "block %d %x: whole -> %d fields err=%v; fragments %v -> %d fields err=%v", i, b, len(w), werr, s.Cuts[i], len(f), ferr), classes
 		}
-		if prist != nil && perr != nil && werr == nil && !r.Loose && r.Err == nil && strings.Contains(perr.Error(), "MUST occur at the beginning") {
+		if prist != nil && perr != nil && leadingSizeUpdates(b) >= 2 && strings.Contains(perr.Error(), "MUST occur at the beginning") && (werr == nil || !strings.Contains(werr.Error(), "MUST occur at the beginning")) {
 			// x/net v0.19.0 rejects a second consecutive size update when the table is not empty; RFC 7541
 			// 4.2 allows it (fixed in the repository copy, see known_findings.json): stop the differential
 			classes = append(classes, "pristine-x/net-rejects-consecutive-size-updates")
